@@ -832,6 +832,8 @@ def oracle_traversal(bed, follow, show, target, obs):
     except OSError:
         return f"served content names a location that does not exist: {rel}"
     inside = rel.startswith("root/")
+    if not follow and not inside:
+        return f"sandbox route served a file whose real location is outside the root: {rel}"
     if m.group(1) == b"FILE" and obs[1] is not None:
         return f"Content-Encoding {obs[1]!r} on the plain file {rel}"
     if not follow:
